@@ -15,6 +15,11 @@ import Hw.Topo.SetStageShape
 import Hw.Topo.SetStageNested
 import Hw.Topo.RenderLemmas
 import Hw.Topo.RenderOf
+import Hw.Topo.StageCompose
+import Hw.Topo.StageDecomp
+import Hw.Topo.StageTyping
+import Hw.Topo.StageSetsOK
+import Hw.Topo.StageRemoveEmptyKept
 namespace Hw.Props.C01
 open Hw.Topo
 
@@ -250,5 +255,232 @@ theorem C01_renderCheck_sound (d : Dump) (h : renderCheck d = []) :
       cases hd : dumpDiff (render t (hdrOf d) (extraOf (gpTable d) (gpTable d))) d with
       | none => exact dumpDiff_none _ _ hd
       | some s => rw [hd] at this; simp at this
+
+/-! ### the later stages of `hwloc_discover`: `remove_empty`, `propagate_total_memory`, `hwloc_set_group_depth`, and the composition
+
+Models `Hw.Topo.Restrict.Stage.removeEmpty / totalsT / setGroupDepth` over the four-list tree of `render`; tied to the code by the
+`set-stage` engine through the second part of the HWLOC_VERIF hook (hooks/stage-dump-2.patch): the library dumps the tree after
+hwloc_filter_bridges, after remove_empty, after hwloc__reconnect(KEEPSTRUCTURE), after propagate_total_memory and after
+hwloc_set_group_depth, and each model run on the previous dump must reproduce the next one exactly. -/
+section Stages
+open Hw.Topo.Restrict Hw.Topo.Restrict.Stage Hw.Topo.SetStage
+
+/-- **remove_empty, the C rule**: in the tree it leaves, every object it visits (the root and everything reachable through normal and
+memory children lists) still has a normal child, a memory child or an I/O child, or its set is not empty — the cpuset for an object of a
+normal type, the nodeset otherwise (`alive`; Misc children do not count).  For EVERY tree. -/
+theorem C01_remove_empty_rule (t t' : Tree) (h : removeEmpty t = some t') : allAlive t' = true := removeEmpty_alive t t' h
+
+/-- … it removes nothing else: a tree in which every visited object is alive comes back unchanged (same objects, same lists, same
+order), and therefore a second run changes nothing -/
+theorem C01_remove_empty_fixpoint (t : Tree) (h : allAlive t = true) : removeEmpty t = some t := removeEmpty_fix t h
+theorem C01_remove_empty_idempotent (t t' : Tree) (h : removeEmpty t = some t') : removeEmpty t' = some t' := removeEmpty_idem t t' h
+
+/-- … the root is removed ("Topology became empty", the load fails) only if its own set is empty -/
+theorem C01_remove_empty_root_removed (t : Tree) (h : removeEmpty t = none) : emptySet t.obj = true := removeEmpty_none t h
+
+/-- … it never removes an object whose own set is not empty (every PU with a non-empty cpuset, every NUMA node with a non-empty nodeset
+survives, wherever it is), and every survivor is an object of the input, unmodified (`objsNM` = the objects reachable through normal and
+memory children lists) -/
+theorem C01_remove_empty_keeps_nonempty (t t' : Tree) (h : removeEmpty t = some t') :
+    (∀ x ∈ objsNM t, emptySet x = false → x ∈ objsNM t') ∧ (∀ x ∈ objsNM t', x ∈ objsNM t) := removeEmpty_objs t t' h
+
+/-- **remove_empty preserves every clause that tolerates dropping empty children**: `Q o ns ms` speaks about an object and the OBJECTS
+of its normal and memory children; `Stable Q` = it survives when children whose set is empty are dropped from the two lists.  If `Q`
+holds at every visited object before, it does after (objects are never modified, survivors keep their order). -/
+theorem C01_remove_empty_preserves (Q : RObj → List RObj → List RObj → Prop) (hQ : Stable Q) (t t' : Tree)
+    (h : removeEmpty t = some t') (ht : AllQ Q t) : AllQ Q t' := removeEmpty_preserves Q hQ t t' h ht
+
+/-- … in particular the set clauses the set stage established (`SetQ`: set-in-complete, set-in-parent for all four sets,
+memory-child-shares-cpuset, normal siblings pairwise disjoint) -/
+theorem C01_remove_empty_preserves_set_clauses (t t' : Tree) (h : removeEmpty t = some t') (ht : AllQ SetQ t) : AllQ SetQ t' :=
+  removeEmpty_preserves SetQ SetQ_stable t t' h ht
+
+/-- … and the object-kind discipline of the four lists (hypothesis of the link theorems), the root object is unchanged -/
+theorem C01_remove_empty_typed (t t' : Tree) (h : removeEmpty t = some t') (ht : typedT t = true) :
+    typedT t' = true ∧ t'.obj = t.obj := removeEmpty_typed t t' h ht
+
+/-- … and the nodeset decomposition (WF clause `nodeset-decomposition`; `DecompT` = `SetStage.Decomp` on the four-list tree) on typed
+trees: an unlinked memory object has an empty nodeset and an unlinked normal object has no NUMA node attached at or below it, so the
+unions and the disjointness conditions at every surviving object are unchanged -/
+theorem C01_remove_empty_preserves_nodeset_decomposition (t t' : Tree) (inh : Nat) (h : removeEmpty t = some t')
+    (ht : typedT t = true) (hd : DecompT inh t) : DecompT inh t' := removeEmpty_decomp t t' inh h ht hd
+
+/-- **typing through the set stage**: if the INPUT of the set stage obeys the object-kind discipline (`typedST`, decidable: normal
+children below normal objects only, memory children below normal objects or memory-side caches, each list holding its own kind) and the
+decoration is well-kinded (`DecoTyped`), then the tree handed to `remove_empty` is typed and its root has the type of the input root: the
+typing hypotheses of `C01_pipeline_compose` follow from the input -/
+theorem C01_pipeline_typing (i : In) (dc : Deco) (h : typedST i.root = true) (hdc : DecoTyped dc) :
+    typedT (toTree dc (stage i).root) = true ∧ (toTree dc (stage i).root).obj.type = i.root.o.type := pipeline_typed i dc h hdc
+
+/-- **the set clauses that survive level merging**: SetsOK (`Restrict.okT`: set ⊆ complete set at every object, the complete sets of
+normal and memory children inside the parent's, no sets on I/O and Misc objects) holds for the tree handed to `remove_empty` when the
+decoration carries no sets (`DecoZero`), is preserved by `remove_empty` and by `hwloc_filter_levels_keep_structure` (C08,
+`ok_keepStructure`); so the FINAL tree is SetsOK and EVERY object of its rendered dump satisfies the WF clause `set-in-complete`.
+(The other set clauses — cpuset / nodeset inside the parent's, memory-child-shares-cpuset — cannot be carried through a merge from what the
+modelled stages establish: a memory child handed from a merged child to its parent shares the parent's cpuset only if parent and single
+child have equal cpusets, which is the clause cpuset-is-disjoint-union-of-children that the insertion, not these stages, provides.) -/
+theorem C01_pipeline_sets_through_merging (i : In) (dc : Deco) (filters : List Nat) (hdr : Hdr) (ex : RObj → Extra)
+    (hpre : PreSets i) (hz : DecoZero dc) (t1 : Tree) (h1 : removeEmpty (toTree dc (stage i).root) = some t1) :
+    okT t1 = true ∧ okT (keepStructure filters t1) = true ∧
+    ∀ o ∈ (render (keepStructure filters t1) hdr ex).objs,
+      objClause "set-in-complete" (render (keepStructure filters t1) hdr ex) (mkAux (render (keepStructure filters t1) hdr ex)) o = true := by
+  have h0 := okT_toTree dc hz _ (stage_post i hpre)
+  have ht1 := removeEmpty_ok _ t1 h1 h0
+  have ht2 := ok_keepStructure filters t1 ht1
+  exact ⟨ht1, ht2, fun o ho => render_set_in_complete _ ht2 hdr ex o ho⟩
+
+/-- **propagate_total_memory**: as long as the local memory of all NUMA nodes of the tree sums to less than 2^64, the value left in
+`total_memory` of every object the function visits is exactly the sum of the local memory of the NUMA nodes at or below that object
+(`subNM t` = the visited subtrees, depth-first).  Without the bound the C sums wrap (`addW`), and so does the model. -/
+theorem C01_total_memory_stage (loc : RObj → Nat) (t : Tree) (h : sumLocalT loc t < W64) :
+    totalsT loc t = (subNM t).map (fun s => (s.obj.gp, sumLocalT loc s)) := totalsT_exact loc t h
+
+/-- … in the form of the WF clause `total-memory` (Hw/Topo/WF.lean): total = own local memory (NUMA nodes only) + the totals of the normal
+and memory children, with no wrap -/
+theorem C01_total_memory_clause (loc : RObj → Nat) (o : RObj) (ns ms ios mis : List Tree)
+    (h : sumLocalT loc (.node o ns ms ios mis) < W64) :
+    totalT loc (.node o ns ms ios mis) = (if o.type == tNUMA then loc o else 0) + (sumTotals loc ns + sumTotals loc ms) :=
+  totalT_clause loc o ns ms ios mis h
+
+/-- **hwloc_set_group_depth**: the levels whose first object is a Group are numbered 0, 1, 2, … from the root level downwards, every
+object of the k-th such level gets depth k, nothing else is written; every depth written is below the number of levels (so it is never
+`(unsigned) -1`, WF clause `group-depth`) -/
+theorem C01_group_depth_stage (t : Tree) :
+    setGroupDepth t = (((connectLevels t).filter isGroupLevel).zipIdx 0).flatMap (fun p => p.1.map (fun o => (o.gp, p.2))) ∧
+    ∀ p ∈ setGroupDepth t, p.2 < (connectLevels t).length :=
+  ⟨groupDepthsFrom_spec _ 0, setGroupDepth_lt t⟩
+
+/-- **composition**.  `i` = the input of the set stage, `dc` = ANY decoration (the I/O and Misc subtrees and Group attributes that the
+unmodelled discovery phases between the set stage and `remove_empty` attach), `t0` = the four-list tree `remove_empty` receives.
+Hypotheses: the decidable precondition `PreSets i` and the typing of `t0` (`typedT`, evaluated by the engine on every rm_before dump).
+If `remove_empty` keeps the root (`t1`; otherwise the load fails), then
+  (a) after `remove_empty`: the C rule holds everywhere, the set clauses of the set stage still hold (`SetQ`; every cpuset / nodeset
+      lies inside the allowed sets when INCLUDE_DISALLOWED is unset; the nodeset decomposition `DecompT`; the allowed sets lie inside the
+      root sets and are equal to them when INCLUDE_DISALLOWED is unset), the tree is typed and its root object is the one of `t0`;
+  (b) after level merging (`t2 = keepStructure filters t1`) the dump `render t2 hdr ex` (for any header and any attribute carrier)
+      satisfies the WF clauses id-is-position, root-or-parent, parent-kind, normal-child-slot, children-array, special-list-heads,
+      special-list-links, depth-by-type, depth-increases, in-its-level, nobjs, levels-listed, level-entries-valid, levels-in-tree-order,
+      normal-levels-nonempty, depth-le-objects; level0-is-root if the root is still the Machine; no-children-where-forbidden if PUs are
+      leaves in `t2`;
+  (c) `propagate_total_memory` on `t2` leaves the exact NUMA sums (when they fit in 64 bits) and `hwloc_set_group_depth` numbers the Group
+      levels of `t2` consecutively.
+NOT covered by this theorem (judged by the oracle on every loaded topology): the set clauses THROUGH level merging (they are stated for
+`t1`; they carry over to `t2` whenever merging changes nothing, `keepStructure filters t1 = t1`; the part that does survive any merge —
+SetsOK and the dump clause set-in-complete — is C01_pipeline_sets_through_merging), cpuset-is-disjoint-union-of-children,
+children-counts, and nodeset-decomposition / total-memory in their dump form (they go through `mkAux`), pu-cpuset,
+numa-nodeset, the uniqueness clauses, pu-level-deepest, numa-exists, type-depth-inverse, normal-level-types, levels-cover-objects,
+not-filtered-out, cache-attrs, siblings-ordered, symmetric_subtree. -/
+theorem C01_pipeline_compose (i : In) (dc : Deco) (filters : List Nat) (hdr : Hdr) (ex : RObj → Extra) (loc : RObj → Nat)
+    (hpre : PreSets i) (hty : typedT (toTree dc (stage i).root) = true) (hroot : (toTree dc (stage i).root).obj.type = tMACHINE)
+    (t1 : Tree) (h1 : removeEmpty (toTree dc (stage i).root) = some t1) :
+    (allAlive t1 = true ∧ AllQ SetQ t1 ∧
+      (i.includeDisallowed = false → AllQ (AllowedQ (stage i).allowedC (stage i).allowedN) t1) ∧
+      typedT t1 = true ∧ t1.obj = (toTree dc (stage i).root).obj ∧ DecompT 0 t1 ∧
+      Sub (stage i).allowedC t1.obj.cpuset ∧ Sub (stage i).allowedN t1.obj.nodeset ∧
+      (i.includeDisallowed = false → t1.obj.cpuset = (stage i).allowedC ∧ t1.obj.nodeset = (stage i).allowedN)) ∧
+    pipeline i dc filters = some (keepStructure filters t1) ∧
+    (∀ o ∈ (render (keepStructure filters t1) hdr ex).objs,
+      objClause "id-is-position" (render (keepStructure filters t1) hdr ex) (mkAux (render (keepStructure filters t1) hdr ex)) o = true ∧
+      objClause "root-or-parent" (render (keepStructure filters t1) hdr ex) (mkAux (render (keepStructure filters t1) hdr ex)) o = true ∧
+      objClause "parent-kind" (render (keepStructure filters t1) hdr ex) (mkAux (render (keepStructure filters t1) hdr ex)) o = true ∧
+      objClause "normal-child-slot" (render (keepStructure filters t1) hdr ex) (mkAux (render (keepStructure filters t1) hdr ex)) o = true ∧
+      objClause "children-array" (render (keepStructure filters t1) hdr ex) (mkAux (render (keepStructure filters t1) hdr ex)) o = true ∧
+      objClause "special-list-heads" (render (keepStructure filters t1) hdr ex) (mkAux (render (keepStructure filters t1) hdr ex)) o = true ∧
+      objClause "special-list-links" (render (keepStructure filters t1) hdr ex) (mkAux (render (keepStructure filters t1) hdr ex)) o = true ∧
+      objClause "depth-by-type" (render (keepStructure filters t1) hdr ex) (mkAux (render (keepStructure filters t1) hdr ex)) o = true ∧
+      objClause "depth-increases" (render (keepStructure filters t1) hdr ex) (mkAux (render (keepStructure filters t1) hdr ex)) o = true ∧
+      objClause "in-its-level" (render (keepStructure filters t1) hdr ex) (mkAux (render (keepStructure filters t1) hdr ex)) o = true ∧
+      (puLeafT (keepStructure filters t1) = true →
+        objClause "no-children-where-forbidden" (render (keepStructure filters t1) hdr ex) (mkAux (render (keepStructure filters t1) hdr ex)) o = true)) ∧
+    (topClause "nobjs" (render (keepStructure filters t1) hdr ex) (mkAux (render (keepStructure filters t1) hdr ex)) = true ∧
+      topClause "levels-listed" (render (keepStructure filters t1) hdr ex) (mkAux (render (keepStructure filters t1) hdr ex)) = true ∧
+      topClause "level-entries-valid" (render (keepStructure filters t1) hdr ex) (mkAux (render (keepStructure filters t1) hdr ex)) = true ∧
+      topClause "levels-in-tree-order" (render (keepStructure filters t1) hdr ex) (mkAux (render (keepStructure filters t1) hdr ex)) = true ∧
+      topClause "normal-levels-nonempty" (render (keepStructure filters t1) hdr ex) (mkAux (render (keepStructure filters t1) hdr ex)) = true ∧
+      topClause "depth-le-objects" (render (keepStructure filters t1) hdr ex) (mkAux (render (keepStructure filters t1) hdr ex)) = true ∧
+      ((keepStructure filters t1).obj.type = tMACHINE →
+        topClause "level0-is-root" (render (keepStructure filters t1) hdr ex) (mkAux (render (keepStructure filters t1) hdr ex)) = true)) ∧
+    (sumLocalT loc (keepStructure filters t1) < W64 →
+      totalsT loc (keepStructure filters t1) = (subNM (keepStructure filters t1)).map (fun s => (s.obj.gp, sumLocalT loc s))) ∧
+    (setGroupDepth (keepStructure filters t1) =
+        (((connectLevels (keepStructure filters t1)).filter isGroupLevel).zipIdx 0).flatMap (fun p => p.1.map (fun o => (o.gp, p.2))) ∧
+      ∀ p ∈ setGroupDepth (keepStructure filters t1), p.2 < (connectLevels (keepStructure filters t1)).length) := by
+  have hs0 : AllQ SetQ (toTree dc (stage i).root) := allQ_toTree dc (fun o k m h => setQ_of_post dc o k m h) _ (stage_post i hpre)
+  have ht1 := removeEmpty_typed _ t1 h1 hty
+  have hn1 : isNormal t1.obj.type = true := by rw [ht1.2, hroot]; decide
+  have ht2 := typed_keepStructure filters t1 ht1.1 hn1
+  have hal := stage_allowed i hpre.covered
+  have hobj : t1.obj = robj dc (stage i).root.o := by rw [ht1.2, toTree_obj]
+  refine ⟨⟨removeEmpty_alive _ t1 h1, removeEmpty_preserves SetQ SetQ_stable _ t1 h1 hs0, fun hf => ?_, ht1.1, ht1.2,
+      removeEmpty_decomp _ t1 0 h1 hty (decompT_toTree dc _ 0 (stage_decomp i hpre)),
+      by rw [hobj]; exact hal.1, by rw [hobj]; exact hal.2.1, fun hf => by rw [hobj]; exact hal.2.2 hf⟩, ?_, fun o ho => ?_, ?_,
+    fun hb => totalsT_exact loc _ hb, groupDepthsFrom_spec _ 0, setGroupDepth_lt _⟩
+  · refine removeEmpty_preserves _ (AllowedQ_stable _ _) _ t1 h1 (allQ_toTree dc (fun o k m h => ?_) _ (stage_within_allowed i hf))
+    exact h
+  · unfold pipeline; rw [h1]; rfl
+  · exact ⟨render_id_is_position _ hdr ex o ho, render_root_or_parent _ ht2.1 hdr ex o ho, render_parent_kind _ ht2.1 hdr ex o ho,
+      render_normal_child_slot _ ht2.1 hdr ex o ho, render_children_array _ ht2.1 hdr ex o ho, render_special_list_heads _ ht2.1 hdr ex o ho,
+      render_special_list_links _ ht2.1 hdr ex o ho, render_depth_by_type _ ht2.1 ht2.2 hdr ex o ho,
+      render_depth_increases _ ht2.1 ht2.2 hdr ex o ho, render_in_its_level _ ht2.1 ht2.2 hdr ex o ho,
+      fun hpu => render_no_children_where_forbidden _ ht2.1 hpu hdr ex o ho⟩
+  · exact ⟨render_nobjs _ hdr ex, render_levels_listed _ hdr ex, render_level_entries_valid _ ht2.1 ht2.2 hdr ex,
+      render_levels_in_tree_order _ hdr ex, render_normal_levels_nonempty _ hdr ex, render_depth_le_objects _ hdr ex,
+      fun hm => render_level0_is_root _ hm hdr ex⟩
+
+/-! non-vacuity.  `exIn` (above): two packages, PU 3 (gp 7) not allowed.  The set stage empties the cpuset of gp 7; with a Misc object
+(gp 40) hanging below that PU and an I/O device (gp 41) below an otherwise empty, CPU-less Group... the decoration `exDc` attaches the
+Misc object to gp 7.  All hypotheses of the composition hold; `remove_empty` unlinks gp 7 and hands its Misc child to package gp 6. -/
+def exLeaf (gp ty : Nat) : Tree := .node ⟨gp, ty, 0, 0, 0, 0, 0, false, 0, 0, 0⟩ [] [] [] []
+def exDc : Deco := ⟨fun _ => [], fun o => if o.gp = 7 then [exLeaf 40 tMISC] else [], fun _ => 0, fun _ => 0, fun _ => 0⟩
+def exRows (t : Tree) : List (Nat × List Nat) := (subNM t).map (fun s => (s.obj.gp, (s.mis.map (·.obj.gp))))
+
+example : PreSets exIn ∧ typedT (toTree exDc (stage exIn).root) = true ∧ (toTree exDc (stage exIn).root).obj.type = tMACHINE ∧
+    (removeEmpty (toTree exDc (stage exIn).root)).map exRows =
+      some [(1, []), (2, []), (3, []), (4, []), (5, []), (10, []), (6, [40]), (8, []), (9, []), (11, [])] :=
+  ⟨(preSets_iff exIn).1 (by decide +kernel), by decide +kernel, by decide +kernel, by decide +kernel⟩
+/-- the set clauses hold before `remove_empty` (hypothesis of C01_remove_empty_preserves_set_clauses) -/
+example : AllQ SetQ (toTree exDc (stage exIn).root) :=
+  allQ_toTree exDc (fun o k m h => setQ_of_post exDc o k m h) _ (stage_post exIn ((preSets_iff exIn).1 (by decide +kernel)))
+/-- the typing hypotheses follow from the input (C01_pipeline_typing), the nodeset decomposition holds before `remove_empty` -/
+example : typedST exIn.root = true := by decide +kernel
+example : DecoTyped exDc := fun o => ⟨rfl, by unfold exDc; simp only; split <;> decide, Or.inr rfl⟩
+example : DecompT 0 (toTree exDc (stage exIn).root) :=
+  decompT_toTree exDc _ 0 (stage_decomp exIn ((preSets_iff exIn).1 (by decide +kernel)))
+example : DecoZero exDc := fun o => ⟨fun x hx => by simp [exDc, objsL] at hx, fun x hx => by
+  unfold exDc at hx; simp only at hx; split at hx
+  · simp [exLeaf, objsL, objsT] at hx; subst hx; decide
+  · simp [objsL] at hx⟩
+/-- the whole pipeline on `exIn` with Package filtered KEEP_STRUCTURE (nothing to merge here) and 100 / 200 bytes on the two NUMA nodes:
+totals per object, no Group -/
+def exLoc (o : RObj) : Nat := if o.gp = 10 then 100 else if o.gp = 11 then 200 else 0
+example : ((pipeline exIn exDc (List.replicate 20 0)).map (fun t => (decide (sumLocalT exLoc t < W64), totalsT exLoc t, setGroupDepth t))) =
+    some (true, [(1, 300), (2, 100), (3, 0), (4, 0), (5, 0), (10, 100), (6, 200), (8, 0), (9, 0), (11, 200)], []) := by decide +kernel
+
+/-- `remove_empty` alone: a Machine with (gp 2) a Package without PU but with a NUMA node — kept; (gp 4) a CPU-less Group kept by its
+I/O child; (gp 6) a Package whose only PU (gp 7, with Misc child gp 8) has an empty cpuset — both removed, the Misc object climbs to the
+root; (gp 9) a Core with PU 0.  Rows: (gp_index, Misc children). -/
+def exN (gp ty cpuset nodeset : Nat) (ns ms ios mis : List Tree) : Tree := .node ⟨gp, ty, 0, cpuset, cpuset, nodeset, nodeset, true, 0, 0, 0⟩ ns ms ios mis
+def exRm : Tree := exN 1 tMACHINE 1 1 [exN 2 tPACKAGE 0 1 [] [exN 3 tNUMA 0 1 [] [] [] []] [] [], exN 4 tGROUP 0 0 [] [] [exLeaf 5 tPCI] [],
+  exN 6 tPACKAGE 0 0 [exN 7 tPU 0 0 [] [] [] [exLeaf 8 tMISC]] [] [] [], exN 9 tCORE 1 0 [exN 10 tPU 1 0 [] [] [] []] [] [] []] [] [] []
+example : allAlive exRm = false ∧ (removeEmpty exRm).map exRows = some [(1, [8]), (2, []), (3, []), (4, []), (9, []), (10, [])] ∧
+    (removeEmpty exRm).map allAlive = some true ∧ typedT exRm = true := by decide +kernel
+/-- an empty root is removed -/
+example : removeEmpty (exN 1 tMACHINE 0 0 [exN 2 tPU 0 0 [] [] [] []] [] [] []) |>.isNone := by decide +kernel
+
+/-- total memory: two NUMA nodes below a package and one behind a memory-side cache; the bound holds -/
+def exMemT : Tree := exN 1 tMACHINE 3 7 [exN 2 tPACKAGE 3 3 [exN 3 tPU 1 3 [] [] [] [], exN 4 tPU 2 3 [] [] [] []]
+    [exN 5 tNUMA 3 1 [] [] [] [], exN 6 tNUMA 3 2 [] [] [] []] [] []] [exN 7 tMEMCACHE 3 4 [] [exN 8 tNUMA 3 4 [] [] [] []] [] []] [] []
+def exMemLoc (o : RObj) : Nat := 1000 * o.gp
+example : sumLocalT exMemLoc exMemT < W64 ∧
+    totalsT exMemLoc exMemT = [(1, 19000), (2, 11000), (3, 0), (4, 0), (5, 5000), (6, 6000), (7, 8000), (8, 8000)] := by decide +kernel
+/-- … and the sums really wrap at 2^64 when the bound fails -/
+example : totalT (fun _ => W64 - 1) exMemT = W64 - 3 := by decide +kernel
+
+/-- group depths: Machine > Group > Package > Group > PU: the two Group levels get 0 and 1 -/
+def exGrp : Tree := exN 1 tMACHINE 3 0 [exN 2 tGROUP 3 0 [exN 3 tPACKAGE 3 0 [exN 4 tGROUP 1 0 [exN 5 tPU 1 0 [] [] [] []] [] [] [],
+  exN 6 tGROUP 2 0 [exN 7 tPU 2 0 [] [] [] []] [] [] []] [] [] []] [] [] []] [] [] []
+example : setGroupDepth exGrp = [(2, 0), (4, 1), (6, 1)] ∧ (connectLevels exGrp).length = 5 := by decide +kernel
+
+end Stages
 
 end Hw.Props.C01
